@@ -34,6 +34,81 @@ class _Abort(BaseException):
     """Unwinds a parked actor thread after another actor ended the run with an exception."""
 
 
+class SimLock:
+    """Cooperative stand-in for threading.Lock while caller threads are scheduled by baton passing: a thread that finds
+    the lock taken gives the baton back (a real lock held by a PARKED thread would block the whole simulation).
+    Exactly one thread runs at a time, so test-and-set needs no atomicity of its own."""
+
+    def __init__(self, sched):
+        self._sched = sched
+        self._locked = False
+
+    def acquire(self, blocking=True, timeout=-1):
+        while self._locked:
+            if not blocking:
+                return False
+            if self._sched.current() is None or self._sched.aborted:
+                raise RuntimeError("simulated lock contended outside the scheduled caller threads")
+            self._sched.lock_waits += 1
+            self._sched.wait(0.0)
+        self._locked = True
+        return True
+
+    def release(self):
+        if not self._locked:
+            raise RuntimeError("release unlocked lock")
+        self._locked = False
+
+    def locked(self):
+        return self._locked
+
+    __enter__ = acquire
+
+    def __exit__(self, *a):
+        self.release()
+
+
+class SimRLock(SimLock):
+    def __init__(self, sched):
+        super().__init__(sched)
+        self._owner = None
+        self._count = 0
+
+    def acquire(self, blocking=True, timeout=-1):
+        me = threading.get_ident()
+        if self._owner == me:
+            self._count += 1
+            return True
+        if not SimLock.acquire(self, blocking, timeout):
+            return False
+        self._owner, self._count = me, 1
+        return True
+
+    def release(self):
+        if self._owner != threading.get_ident():
+            raise RuntimeError("cannot release un-acquired lock")
+        self._count -= 1
+        if self._count == 0:
+            self._owner = None
+            SimLock.release(self)
+
+    __enter__ = acquire
+
+    # what threading.Condition asks of an RLock
+    def _is_owned(self):
+        return self._owner == threading.get_ident()
+
+    def _release_save(self):
+        st = (self._count, self._owner)
+        self._count, self._owner = 0, None
+        SimLock.release(self)
+        return st
+
+    def _acquire_restore(self, st):
+        SimLock.acquire(self)
+        self._count, self._owner = st
+
+
 class _Actor:
     def __init__(self, idx, fn):
         self.idx = idx
@@ -54,6 +129,7 @@ class ThreadSched:
         self.actors = []
         self.main = threading.Event()
         self.switches = 0
+        self.lock_waits = 0
         self.aborted = False
         self._tls = threading.local()
 
@@ -117,6 +193,10 @@ class ThreadSched:
             self.actors.append(a)
             a.thread.start()
         CLOCK.sched = self
+        # locks CREATED while the threads are scheduled (e.g. by a client constructed inside the run) are cooperative
+        real_lock, real_rlock = threading.Lock, threading.RLock
+        threading.Lock = lambda: SimLock(self)
+        threading.RLock = lambda: SimRLock(self)
         try:
             while True:
                 parked = [a for a in self.actors if a.state == "parked"]
@@ -136,6 +216,7 @@ class ThreadSched:
                 if a.exc is not None:
                     raise a.exc
         finally:
+            threading.Lock, threading.RLock = real_lock, real_rlock
             CLOCK.sched = None
             self.aborted = True
             for a in self.actors:
